@@ -416,6 +416,7 @@ package main
 
 //@ func parseRootOneStmt
 //@   props C07
+//@   requires live: live(ps)
 //@   panics may
 //@   ensures root-scope-only: sclen(ps.scope) <= 1
 
@@ -531,13 +532,18 @@ package main
 //@   trusted
 //@   panics may
 //@   returns skipeol(ps)
+//@   ensures live: live(ps) ==> live(result) && samebuf(result, ps) && result.tkz.current.begin >= ps.tkz.current.begin
 //@   note abstract: skips EOL tokens (recursion over the tokenizer); may panic on a scanner error
 
 //@ func psConsume
-//@   props C15 C08 C07
+//@   props C15 C08 C07 C16
+//@   requires live: live(ps)
 //@   panics may
 //@   ensures consumed: ps.tkz.current.ttype == ttype && result == adv(ps)
 //@   ensures frame: result.scope == ps.scope && result.offsideCol == ps.offsideCol && result.tvc == ps.tvc && result.tdctx == ps.tdctx
+//@   ensures live: live(result) && samebuf(result, ps)
+//@   ensures mono: result.tkz.current.begin >= ps.tkz.current.begin
+//@   ensures progress: ttype != New_TokenType_EOF ==> result.tkz.current.begin > ps.tkz.current.begin
 
 //@ func lookupBinOp
 //@   trusted
@@ -551,6 +557,7 @@ package main
 //@   modifies glob:wg
 //@   panics may
 //@   ensures grouped: old(glob(wg)) ==> glob(wg)
+//@   ensures live: live(ps) ==> live(result.E0) && samebuf(result.E0, ps)
 //@   note abstract: one operand (atom, application, parenthesised expression, not ...): rank 100.  It builds no binary node itself (scan: newBinOpCall is called only from parseBinAfter); sub-expressions go through pExpr, i.e. parseExprWithPrec, whose contract preserves wg
 
 //@ func psTypeVarGen
@@ -560,6 +567,8 @@ package main
 //@ func parseBinAfter
 //@   props C08
 //@   modifies glob:wg
+//@   requires live: live(ps)
+//@   ensures live: live(result.E0) && samebuf(result.E0, ps)
 //@   ghost-in rpc int            -- rank of cur
 //@   ghost rp int                -- rank of the expression returned
 //@   param pEwithMinPrec: like parseExprWithPrec(_, $0, $1)
@@ -580,6 +589,8 @@ package main
 //@ func parseExprWithPrec
 //@   props C08
 //@   modifies glob:wg
+//@   requires live: live(ps)
+//@   ensures live: live(result.E0) && samebuf(result.E0, ps)
 //@   ghost rp int
 //@   requires min-small: minPrec <= 100
 //@   panics may
@@ -593,6 +604,8 @@ package main
 //@ func parseExpr
 //@   props C08
 //@   modifies glob:wg
+//@   requires live: live(ps)
+//@   ensures live: live(result.E0) && samebuf(result.E0, ps)
 //@   panics may
 //@   ensures grouped: old(glob(wg)) ==> glob(wg)
 //@   ensures stop: stop(result.E0, 1)
@@ -1137,22 +1150,31 @@ package main
 //@   returns scparent(sc)
 
 //@ func psNext
-//@   trusted
+//@   props C15 C16
 //@   panics may
-//@   returns adv(ps)
+//@   requires live: live(ps)
+//@   returns-def adv(ps)
 //@   ensures frame: result.scope == ps.scope && result.offsideCol == ps.offsideCol && result.tvc == ps.tvc && result.tdctx == ps.tdctx
-//@   note abstract: advances the tokenizer (tkzNext, verified under C06 over byte strings); every other component is kept
+//@   ensures live: live(result) && samebuf(result, ps)
+//@   ensures mono: result.tkz.current.begin >= ps.tkz.current.begin
+//@   ensures progress: ps.tkz.current.ttype != New_TokenType_EOF ==> result.tkz.current.begin > ps.tkz.current.begin
+//@   inline-call tkzNext#0
+//@   note adv(ps) is DEFINED as the state this function returns (tkzNext on the tokenizer, every other component kept); tkzNext is executed in place here (over SMT strings), nextToken is used through its contract (verified under C16/C06 over byte strings)
 
 //@ func psIdentNameNx
-//@   props C15 C07 C03
+//@   props C15 C07 C03 C16
+//@   requires live: live(ps)
 //@   panics may
 //@   ensures ident: ps.tkz.current.ttype == New_TokenType_IDENTIFIER && result.E0 == adv(ps) && result.E1 == ps.tkz.current.stringVal
 //@   ensures frame: result.E0.scope == ps.scope && result.E0.offsideCol == ps.offsideCol && result.E0.tvc == ps.tvc && result.E0.tdctx == ps.tdctx
+//@   ensures live: live(result.E0) && samebuf(result.E0, ps)
+//@   ensures progress: result.E0.tkz.current.begin > ps.tkz.current.begin
 
 //@ func parseExtDefs
 //@   trusted
 //@   panics may
 //@   ensures scope-kept: result.scope == ps.scope
+//@   ensures live: live(ps) ==> live(result) && samebuf(result, ps)
 //@   note abstract: the declarations of the block (they register into the scope they are handed); the parser returns with the scope it was given
 
 //@ func piRegAll
@@ -1163,6 +1185,7 @@ package main
 //@ func parsePackageInfo
 //@   props C07 C03
 //@   modifies maps
+//@   requires live: live(ps)
 //@   ghost SC Scope              -- the scope in which the block's declarations are parsed
 //@   ghost RS Scope              -- the scope in which the qualified names are registered afterwards
 //@   panics may
@@ -1188,14 +1211,20 @@ package main
 //@   returns ps.tkz.current.ttype != expectTT
 
 //@ func psMulConsume
-//@   props C15
+//@   props C15 C16
+//@   requires live: live(ps)
 //@   panics may
 //@   ensures consumed: forall k int :: 0 <= k && k < len(ttypes) ==> advn(ps, k).tkz.current.ttype == ttypes[k]
 //@   ensures state: result == advn(ps, len(ttypes))
+//@   ensures live: live(result) && samebuf(result, ps)
+//@   ensures mono: result.tkz.current.begin >= ps.tkz.current.begin
+//@   ensures progress: len(ttypes) >= 1 && ttypes[0] != New_TokenType_EOF ==> result.tkz.current.begin > ps.tkz.current.begin
 //@   inline-call slice.Fold#0
 //@   loop slice.Fold#0/0 index i:
 //@     invariant state: stat == advn(iniS, i)
 //@     invariant consumed: forall k int :: 0 <= k && k < i ==> advn(iniS, k).tkz.current.ttype == ss[k]
+//@     invariant live: live(stat) && samebuf(stat, iniS) && stat.tkz.current.begin >= iniS.tkz.current.begin
+//@     invariant progress: i >= 1 && ss[0] != New_TokenType_EOF ==> stat.tkz.current.begin > iniS.tkz.current.begin
 
 //@ func scLookupTypeFac
 //@   trusted
@@ -1204,65 +1233,109 @@ package main
 //@   note abstract: has_typefac is uninterpreted - "the scope chain has a type factory under this name"
 
 //@ func parseFullName
-//@   props C15
+//@   props C15 C16
+//@   requires live: live(ps)
 //@   panics may
+//@   decreases rem(ps)
 //@   ensures grammar: Rfullname(ps, result.E0, result.E1)
 //@   ensures frame: result.E0.scope == ps.scope
+//@   ensures live: live(result.E0) && samebuf(result.E0, ps)
+//@   ensures progress: result.E0.tkz.current.begin > ps.tkz.current.begin
 
 //@ func parseTypeList
-//@   props C15
+//@   props C15 C16
 //@   modifies maps
 //@   param pType: like parseType($0)
+//@   requires live: live(ps)
 //@   panics may
+//@   rec-group typeparser
+//@   decreases 8 * rem(ps) + 6
 //@   ensures grammar: Rtlist(ps, result.E0, result.E1)
+//@   ensures live: live(result.E0) && samebuf(result.E0, ps)
+//@   ensures progress: result.E0.tkz.current.begin > ps.tkz.current.begin
 
 //@ func mightParseSpecifiedTypeList
-//@   props C15
+//@   props C15 C16
 //@   modifies maps
 //@   param pType: like parseType($0)
+//@   requires live: live(ps)
 //@   panics may
+//@   rec-group typeparser
+//@   decreases 8 * rem(ps) + 7
 //@   ensures grammar: Rtargs(ps, result.E0, result.E1)
+//@   ensures live: live(result.E0) && samebuf(result.E0, ps)
+//@   ensures mono: result.E0.tkz.current.begin >= ps.tkz.current.begin
+
 //@ func tdctxTVFAlloc
 //@   trusted
+//@   modifies maps
 //@   panics may
+//@   note abstract: allocates a placeholder type variable for a forward reference inside a type definition
 
 //@ func parseAtomType
-//@   props C15
+//@   props C15 C16
 //@   modifies maps
 //@   param pType: like parseType($0)
+//@   requires live: live(ps)
 //@   panics may
+//@   rec-group typeparser
+//@   decreases 8 * rem(ps) + 1
 //@   ensures grammar: Ratom(ps, result.E0, result.E1)
+//@   ensures live: live(result.E0) && samebuf(result.E0, ps)
+//@   ensures progress: result.E0.tkz.current.begin > ps.tkz.current.begin
 
 //@ func parseTermType
-//@   props C15
+//@   props C15 C16
 //@   modifies maps
 //@   param pType: like parseType($0)
+//@   requires live: live(ps)
 //@   panics may
+//@   rec-group typeparser
+//@   decreases 8 * rem(ps) + 2
 //@   ensures grammar: Rterm(ps, result.E0, result.E1)
+//@   ensures live: live(result.E0) && samebuf(result.E0, ps)
+//@   ensures progress: result.E0.tkz.current.begin > ps.tkz.current.begin
 
 //@ func parseElemType
-//@   props C15
+//@   props C15 C16
 //@   modifies maps
 //@   param pType: like parseType($0)
+//@   requires live: live(ps)
 //@   panics may
+//@   rec-group typeparser
+//@   decreases 8 * rem(ps) + 3
 //@   ensures grammar: Relem(ps, result.E0, result.E1)
+//@   ensures live: live(result.E0) && samebuf(result.E0, ps)
+//@   ensures progress: result.E0.tkz.current.begin > ps.tkz.current.begin
 //@   inline-call ParseList2
 //@   loop ParseList2/0:
 //@     invariant terms: Rterms(old(ps), ps, res) && len(res) >= 1
+//@     invariant live: live(ps) && samebuf(ps, old(ps)) && ps.tkz.current.begin > old(ps).tkz.current.begin
+//@     decreases rem(ps)
 
 //@ func parseTypeArrows
-//@   props C15
+//@   props C15 C16
 //@   modifies maps
 //@   param pType: like parseType($0)
+//@   requires live: live(ps)
 //@   panics may
+//@   rec-group typeparser
+//@   decreases 8 * rem(ps) + 4
 //@   ensures grammar: Rarrows(ps, result.E0, result.E1)
+//@   ensures live: live(result.E0) && samebuf(result.E0, ps)
+//@   ensures progress: result.E0.tkz.current.begin > ps.tkz.current.begin
 //@   ensures nonempty: len(result.E1) >= 1
 
 //@ func parseType
-//@   props C15
+//@   props C15 C16
 //@   modifies maps
+//@   requires live: live(ps)
 //@   panics may
+//@   rec-group typeparser
+//@   decreases 8 * rem(ps) + 5
 //@   ensures grammar: Rtype(ps, result.E0, result.E1)
+//@   ensures live: live(result.E0) && samebuf(result.E0, ps)
+//@   ensures progress: result.E0.tkz.current.begin > ps.tkz.current.begin
 
 // ---------------------------------------------------------------------------------------------
 // Forward-declaration placeholders (C15, C16): transTRecurse applies the translation at least once and
